@@ -422,6 +422,11 @@ func (c *CEnv) binary(e *CE, hint *Value) Value {
 		it, ok := intTyOf(v.T)
 		return ok && !it.Signed
 	}
+	// contract arithmetic never wraps, so its results are untyped mathematical integers:
+	// a later conversion uint64(e) must reduce modulo 2^64 whatever the size of e
+	rtBits := rt
+	rt = nil
+	_ = rtBits
 	switch op {
 	case "+":
 		return Value{K: KScalar, T: rt, X: iAdd(a.X, b.X)}
